@@ -81,3 +81,12 @@ def module_ident(ctx, P):
     _ensure(ctx, P + "/strtab-window", lambda n: c14.rule_strtab_window(ctx, R=n))
     _ensure(ctx, P + "/header-context", lambda n: c14.rule_header_context(ctx, R=n))
     _ensure(ctx, P + "/note-walk", lambda n: c14.rule_note_walk(ctx, R=n))
+
+
+def destination(ctx, P):
+    """what the property says about the dump holds for the FILE the caller gets, not only for the in-memory image: pending bytes are
+    appended where the previous flush ended, a directory slot is written at start + slot rva, and the append position is put back,
+    wherever in the destination the dump started"""
+    from rules import c09
+    _ensure(ctx, P + "/destination/seek-targets", lambda n: c09.rule_seek_targets(ctx, R=n))
+    _ensure(ctx, P + "/destination/save-restore", lambda n: c09.rule_save_restore(ctx, R=n))
